@@ -97,7 +97,7 @@ def check(run):
                 fe_c = np.conj(fe)
                 for cname, op in (("f.conjugate()", lambda: f.conjugate()), ("f.conj()", lambda: f.conj()), ("f.bar", lambda: f.bar), ("np.conjugate(f)", lambda: np.conjugate(f)),
                                   ("np.conj(f)", lambda: np.conj(f)), ("f.copy().conjugate(inplace=True)", lambda: f.copy().conjugate(inplace=True)),
-                                  ("np.conjugate(f, out=)", lambda: _conj_out(f))):
+                                  ("np.conjugate(f, out=)", lambda: _conj_out(f)), ("np.conjugate(h, out=h)", lambda: _conj_alias(f))):
                     r = attempt(cname, inp, op)
                     run.gap_case("conjugation", (s, La, la, cname), cname)
                     if r is None:
@@ -174,6 +174,14 @@ def _conj_out(f):
     import spherical
     out = spherical.Modes(np.zeros_like(f.ndarray), spin_weight=f.spin_weight, ell_min=0, ell_max=f.ell_max)
     r = np.conjugate(f, out=out)
+    return r
+
+
+def _conj_alias(f):
+    h = f.copy()
+    r = np.conjugate(h, out=h)      # output aliases the operand
+    if not np.shares_memory(r, h) or h.spin_weight != -f.spin_weight:
+        raise AssertionError("in-place ufunc conjugation did not write into / relabel its operand")
     return r
 
 
